@@ -12,7 +12,7 @@ id <property>.H<n> if (a) the property is listed for it - the list says for whic
 the stated behaviour, decided by reading the property, because bare reachability over-approximates (telegram reception
 reaches the name lookup through the listener callbacks, yet C01 does not depend on case folding) -, (b) its anchor
 functions are connected to the functions the property's own rules analysed - called from them, calling them (a loader, an
-open()), or methods of the same class family - otherwise the listing is stale and a note is written, and (c) the property has not run the rule itself.  The helper rules are the ones written for their home
+open()), methods of the same class family, or the table that constructs the objects whose methods were analysed - otherwise the listing is stale and a note is written, and (c) the property has not run the rule itself.  The helper rules are the ones written for their home
 property; nothing is weakened or specialised here."""
 import importlib
 
@@ -69,11 +69,17 @@ HELPERS = [
     (16, 'minus-sign', 'rules.C07', 'r6', 'C07.R6',
      ['ebusd::parseInt'],
      'the code of this property parses unsigned numbers from text'),
+    (17, 'type-table', 'rules.C05', 'r1', 'C05.R1',
+     ['ebusd::DataTypeList::DataTypeList'],
+     'the code of this property converts with the built-in data types: width, range and replacement value of every type'),
+    (18, 'entry-reset', 'rules.C01', 'r6', 'C01.R6',
+     ['ebusd::DirectProtocolHandler::setState'],
+     'the exchange this property describes starts from the state that setState leaves behind on entering ready/skip'),
 ]
 
 
 # for which further properties a helper matters (besides those whose own module runs it)
-RELEVANT = {'layout': ['C06', 'C07', 'C13', 'C15'], 'crc-table': ['C15'], 'address-classes': ['C02', 'C09'], 'errno': ['C19'], 'parseint-prefix': [], 'overflow-threshold': [], 'transport-accounting': ['C01', 'C02'], 'clock': [], 'recv-deadline': ['C14'], 'tolower': ['C16', 'C18'], 'multiline-field': [], 'file-state': ['C19', 'C16'], 'serial-raw': ['C02', 'C14'], 'arbitration-disarm': ['C03'], 'enhanced-decoder': [], 'minus-sign': []}
+RELEVANT = {'layout': ['C06', 'C07', 'C13', 'C15'], 'crc-table': ['C15'], 'address-classes': ['C02', 'C09'], 'errno': ['C19'], 'parseint-prefix': [], 'overflow-threshold': [], 'transport-accounting': ['C01', 'C02'], 'clock': [], 'recv-deadline': ['C14'], 'tolower': ['C16', 'C18'], 'multiline-field': [], 'file-state': ['C19', 'C16'], 'serial-raw': ['C02', 'C14'], 'arbitration-disarm': ['C03'], 'enhanced-decoder': [], 'minus-sign': [], 'type-table': ['C06', 'C07'], 'entry-reset': ['C02', 'C15']}
 
 
 def share(ctx):
@@ -98,6 +104,18 @@ def share(ctx):
                 cls = a.rsplit('::', 1)[0]
                 fam = set([cls]) | set(fb.bases(cls)) | set(fb.derived(cls))
                 if any(r.rsplit('::', 1)[0] in fam for r in roots):
+                    hit.append(a)
+                    continue
+                # a table: the anchor constructs the objects whose methods the property analysed
+                made = set()
+                for f in fb.by_name.get(a, []):
+                    for x, v in f.nodes.items():
+                        if v.get('k') == 'CXXNewExpr' and v.get('newt'):
+                            made.add(v['newt'])
+                madefam = set(made)
+                for c in made:
+                    madefam |= set(fb.bases(c))
+                if any(r.rsplit('::', 1)[0] in madefam for r in roots):
                     hit.append(a)
         if not hit:
             ctx.note('closure: helper rule %s is listed for %s but none of its functions is reached from the analysed functions' % (key, ctx.prop))
